@@ -14,7 +14,7 @@ CONSTANTS
   Crds = {"absent", "stale", "current"}
   Whcs = {"stale"}
   Kinds = {"prov"}
-  Hosts = {"", "h", "hp"}
+  Hosts = {"", "h", "hp", "hd"}
   ReqVers = {"t2", "d1"}
   InstNames = {"def", "custom"}
   InstVers = {"t1", "d2"}
